@@ -1171,7 +1171,18 @@ class CallMixin(object):
                 d8 = z3.Function('utf8dec', IntSeq, IntSeq)
                 yield st, SeqV(d8(recv.t), 'str')       # (invalid utf-8 raising UnicodeDecodeError is outside the T2 model)
                 return
-            raise Unsupported('decode(%r)' % enc)
+            # any other codec: its own uninterpreted decoding function, named by the codec's canonical name (aliases of one codec share it;
+            # nothing relates it to another codec's function, so a contract stated over utf-8 does not follow)
+            import codecs
+            try:
+                canon = codecs.lookup(enc).name
+            except (LookupError, TypeError):
+                raise Unsupported('decode(%r)' % (enc,))
+            if canon == 'utf-8':
+                yield st, SeqV(z3.Function('utf8dec', IntSeq, IntSeq)(recv.t), 'str')
+                return
+            yield st, SeqV(z3.Function('dec_' + ''.join(c if c.isalnum() else '_' for c in canon), IntSeq, IntSeq)(recv.t), 'str')
+            return
         if name == 'split' and len(args) == 2 and const_of(to_int(args[1])) == 1:
             sep = args[0]
             sep = lift_seq_const(sep.py) if isinstance(sep, ConstV) else sep
